@@ -333,3 +333,48 @@ def replay_kernel_translation(args):
     want_written = new != args["cur"] or (real[1] and real[2] == args["cur"])
     bad = real[0] != want_ret or (real[1] and real[2] != new) or (not real[1] and new != args["cur"])
     return (bad, f"real (vote, written, value)={real}; documented vote={want_ret}, value afterwards={new}")
+
+
+# ------------------------------------------------------------------ O3 'true' / 'false' as assigned values
+YS = ["true", "false", "False", "TRUE", "fAlSe", "x"]
+
+
+def asbool_str(y):
+    if y is None:
+        return False
+    return y.strip().lower() != "false"
+
+
+def string_oracle(onmatch, latch, onchange, notnone, asbool, nocontrib, cur, yi, m):
+    y = None if yi < 0 else YS[yi]
+    c = None if cur < 0 else YS[cur]
+    new, vote = assign_oracle(onmatch, latch, onchange, False, False, notnone, False, nocontrib, c, y, m)
+    if asbool and not nocontrib:
+        base_new, base_vote = assign_oracle(onmatch, latch, onchange, False, False, notnone, False, False, c, y, m)
+        if base_vote:
+            vote = asbool_str(y)
+    return (new, vote and m)
+
+
+@ob(
+    "C14",
+    "O3-true-false-strings",
+    pre=["-1 <= yi < 6 and -1 <= cur < 6"],
+    post="_ == string_oracle(onmatch, latch, onchange, notnone, asbool, nocontrib, cur, yi, m)",
+    bound="as O2-step with the assigned value and the current value picked by symbolic indexes from 'true', 'false', 'False', 'TRUE', "
+    "'fAlSe', 'x' or absent (increase/decrease off, as in the property's quantifier): asbool reads 'false' in any spelling as False "
+    "and every other text as True",
+    outside="other texts",
+    encodes=ENC + ["csvpath/matching/util/expression_utility.py:ExpressionUtility.asbool"],
+    tiers={"quick": {"timeout": 900, "shards": product(onmatch=[False, True], asbool=[False, True])}},
+)
+def string_step(onmatch: bool, latch: bool, onchange: bool, notnone: bool, asbool: bool, nocontrib: bool, cur: int, yi: int, m: bool) -> Tuple[Optional[str], bool]:
+    p, pr, eq = build(TEXT, [onmatch, latch, onchange, False, False, notnone, asbool, nocontrib])
+    if cur >= 0:
+        p.variables["x"] = YS[cur]
+    if yi >= 0:
+        p.variables["y"] = YS[yi]
+    p.variables["m"] = m
+    p.track_line(["h"])
+    ret = p._consider_line(["h"])
+    return (p.variables.get("x"), ret)
